@@ -18,6 +18,17 @@
 (*                   driver gives every such element a distinct marker)     *)
 (*   Close(k)        closeSession -> OutgoingIqManager::onSessionClosed     *)
 (*   Open(k)         openSession  -> OutgoingIqManager::onSessionOpened     *)
+(*   Attempt(r)      something that happens while no session is up and ends  *)
+(*                   without one: a connection attempt that fails before the *)
+(*                   session is established -- "authfail" (SASL <failure/>), *)
+(*                   "bindfail" (bind error), "userabort" (the application    *)
+(*                   calls disconnectFromServer() during the negotiation):    *)
+(*                   each goes through disconnectFromHost(), which abandons   *)
+(*                   resumption, then the socket closes -> closeSession ->    *)
+(*                   onSessionClosed(canResume = false); "precut" (the        *)
+(*                   connection drops before authentication: resumption is    *)
+(*                   still possible); and "abandon": disconnectFromServer()   *)
+(*                   while no connection exists at all.                       *)
 (*   Destroy         ~QXmppOutgoingClient -> resetCache, cancelAll          *)
 (*                                                                         *)
 (* The specification is the *intended* behaviour (property C07): a request *)
@@ -44,6 +55,7 @@ EXTENDS Naturals, Sequences, FiniteSets, TLC
 
 CONSTANTS Ids, Tos, RFroms, Types, OpenKinds, MaxHist,
           Cids,       \* subset of {"fresh", "empty", "dup"}: what the caller may put into the id of a request
+          Attempts,   \* subset of {"authfail", "bindfail", "userabort", "precut", "abandon"}
           IdRule      \* "replace": the intended rule (and the code's); "keep": the rule left out -- only to
                       \* show that WireUnique / RightSender depend on it (IqTrackerKeep.cfg must fail)
 
@@ -169,6 +181,16 @@ Close(k) ==
     /\ Log([a |-> "Close", k |-> k])
     /\ UNCHANGED <<smOn, dead>>
 
+\* Once resumption of the suspended session has been given up, its requests have nothing to wait for.
+Attempt(r) ==
+    /\ ~dead /\ ~up
+    /\ IF r = "precut"
+       THEN UNCHANGED <<resumable, canRes, req>>
+       ELSE resumable' = FALSE /\ canRes' = FALSE /\ req' = CancelAll(req)
+    /\ out' = [a |-> "Attempt", id |-> "", cls |-> r, passed |-> 0]
+    /\ Log([a |-> "Attempt", r |-> r])
+    /\ UNCHANGED <<up, smOn, dead>>
+
 Destroy ==
     /\ ~dead
     /\ dead' = TRUE /\ up' = FALSE /\ resumable' = FALSE
@@ -182,6 +204,7 @@ Next ==
     \/ \E i \in Ids : \E ty \in Types : \E f \in RFroms : Recv(i, ty, f)
     \/ \E k \in OpenKinds : Open(k)
     \/ \E k \in {"cut", "user"} : Close(k)
+    \/ \E r \in Attempts : Attempt(r)
     \/ Destroy
 
 Spec == Init /\ [][Next]_vars
@@ -196,7 +219,7 @@ P_Justified(a, cls, ty, by, m, gotMark, sessionUp) ==
     CASE a = "Recv"    -> cls \in {"must", "may"} /\ ty \in Responses /\ by = ByOf(ty)
                           /\ (ty = "errorBare" \/ gotMark = m \/ gotMark = 0)   \* 0: the API does not hand the payload out
       [] a = "Send"    -> ~sessionUp /\ by = "local"
-      [] a \in {"Open", "Close", "Destroy"} -> by = "local"
+      [] a \in {"Open", "Close", "Destroy", "Attempt"} -> by = "local"
       [] OTHER         -> FALSE
 
 Pending == {i \in Ids : req[i].st = "Out"}
@@ -210,6 +233,8 @@ WireUnique   == \A i \in Pending : req[i].wire # "" /\ \A j \in Pending \ {i} : 
 WrongSender  == [][out'.a = "Recv" /\ out'.cls = "not" => req' = req]_vars
 \* a reply from the addressed entity completes the request there and then
 RightSender  == [][out'.a = "Recv" /\ out'.cls = "must" /\ req[out'.id].st = "Out" => req'[out'.id].st = "Done"]_vars
+\* an attempt that ends with resumption given up leaves nothing outstanding; one that does not, changes nothing
+GivenUp      == [][out'.a = "Attempt" => IF out'.cls = "precut" THEN req' = req ELSE Pending' = {}]_vars
 \* a new session that is not a resumption starts with nothing outstanding (never pending forever)
 FreshOpen    == [][out'.a = "Open" /\ out'.cls # "resumed" => Pending' = {}]_vars
 TypeOK ==
